@@ -65,7 +65,14 @@ impl<'a> Cigar<'a> {
             if src.is_empty() {
                 None
             } else {
-                Some(parse_op(&mut src))
+                let result = parse_op(&mut src);
+
+                // A failed parse does not necessarily advance the source. Stop after the error.
+                if result.is_err() {
+                    src = &[];
+                }
+
+                Some(result)
             }
         })
     }
